@@ -92,8 +92,12 @@ def mutate_line(line: str, rnd: random.Random) -> str | None:
         p[7] = f"{max(0, min(999, int(p[7]) + rnd.choice((-1, 1)) if p[7].isdigit() else 1)):03d}"
     elif k < 24:  # verb
         p[1] = rnd.choice(VERBS)
-    elif k < 26 and STATE["codes"]:  # code (payload kept)
-        p[6] = rnd.choice(STATE["codes"])
+    elif k < 26 and STATE["codes"]:  # code (payload kept): another known code, or one hex digit of it flipped (mostly unknown codes)
+        if rnd.random() < 0.7:
+            p[6] = rnd.choice(STATE["codes"])
+        else:
+            i = rnd.randrange(4)
+            p[6] = p[6][:i] + rnd.choice(HEXD) + p[6][i + 1:]
     elif k < 28:  # device type of one address
         j = rnd.choice((3, 4, 5))
         if p[j] != NON:
